@@ -646,3 +646,28 @@ Proof.
   split; [exact r4_idx_b|]. split; [exact r4_blocks_ok|]. destruct r4_orders as (H1 & H2 & H3 & H4).
   split; [exact H1|]. split; [exact H2|]. split; [exact H3|]. split; [exact H4|]. split; [exact r4_strict_fails|]. split; [exact r4_theorem_applies|exact r4_reader_first_ok].
 Qed.
+
+(* the locality clause derived from the checker, on the normalized file: `file_eok` (Model/Locality.v) does not look at capture indices
+   (Proofs/IdxChecked.v file_eok_norm), so acceptance of fl by the checker gives the clause for `normalize_file fl` *)
+From TSG Require Import Proofs.IdxChecked.
+Theorem checked_blocks_in_fragment_real : forall q f fl okfn ms,
+  check_file q f = CkOk fl -> Forall (pm_ok2_ns (normalize_file fl) okfn) ms -> Forall (pm_ok2 (normalize_file fl) okfn) ms.
+Proof. exact checked_pm_ok2_real. Qed.
+Theorem lazy_block_order_iso_scoped_checked_real_partial : forall (rx : Type) (t : tree) q f (fl : file) (supplied : globals) (regexes : list rx)
+    (find : rx -> str -> option (list (option (N * N)))) (call : ident -> graph -> list value -> res (value * graph)) (okfn : ident -> Prop),
+  check_file q f = CkOk fl ->
+  (forall f, okfn f -> call_ok call f) ->
+  forall g0 : graph, gclosed (N.of_nat (length g0)) g0 ->
+  (forall glob, check_globals (f_globals fl) (globals_nested supplied) = Ok glob ->
+     forall name v, globals_get glob name = Some v -> vall (fun i => i < N.of_nat (length g0)) v) ->
+  forall (fuel : nat) (ms ms' : list (N * qmatch)) (ls : lstate) (p : polls),
+  Permutation ms ms' -> Forall (pm_ok2_ns (normalize_file fl) okfn) ms ->
+  run_lazy t fl config0 supplied None regexes find call fuel ms g0 = Ok (ls, p) ->
+  exists r r', (forall i, r' (r i) = i) /\ (forall i, r (r' i) = i) /\ (forall i, i < N.of_nat (length g0) -> r i = i) /\
+    exists fuel0, forall fuel', (fuel0 <= fuel')%nat -> exists ls' p',
+      run_lazy t fl config0 supplied None regexes find call fuel' ms' g0 = Ok (ls', p') /\ graph_iso r (l_graph ls) (l_graph ls').
+Proof.
+  intros rx t q f fl supplied regexes find call okfn Hck Hcall g0 Hcl Hglob fuel ms ms' ls p HP Hok Hrun.
+  exact (lazy_block_order_iso_scoped_real_partial rx t fl supplied regexes find call okfn Hcall g0 Hcl Hglob fuel ms ms' ls p HP
+           (checked_pm_ok2_real q f fl okfn ms Hck Hok) Hrun).
+Qed.
